@@ -142,8 +142,41 @@ def t_model(arg, acc):
             acc.case(sub, outcome=f'{model}-agg')
 
 
+REFUSED = {
+    'none': None,
+    'psd-seed-negative': lambda L: L.power_spectrum(psd_mask((6, 6)), pixelscale=1e-3, rms=1e-9, half_power_freq=5, exp=3, seed=-1),
+    'psd-seed-float': lambda L: L.power_spectrum(psd_mask((6, 6)), pixelscale=1e-3, rms=1e-9, half_power_freq=5, exp=3, seed=1.5),
+    'psd-mask-1d': lambda L: L.power_spectrum(np.ones(6), pixelscale=1e-3, rms=1e-9, half_power_freq=5, exp=3, seed=1),
+    'psd-mask-3d': lambda L: L.power_spectrum(np.ones((2, 6, 6)), pixelscale=1e-3, rms=1e-9, half_power_freq=5, exp=3, seed=1),
+    'shot-negative': lambda L: L.detector.shot_noise(np.array([[1.0, -2.0]]), method='gaussian', seed=1),
+    'shot-negative-poisson': lambda L: L.detector.shot_noise(np.array([[1.0, -2.0]]), method='poisson', seed=1),
+    'shot-method': lambda L: L.detector.shot_noise(np.ones((2, 2)), method='bogus', seed=1),
+    'read-seed': lambda L: L.detector.read_noise(np.ones((2, 2)), 3.0, seed=-4),
+    'dark-seed': lambda L: L.detector.dark_current(3.0, shape=(2, 2), fpn_factor=0.1, seed=-4),
+    'cosmic-shape': lambda L: L.detector.cosmic_rays((4,), (5e-6, 5e-6, 5e-6), ts=1.0),
+}
+
+
 def chk_reject(case, acc, seed):
     import lentil
+    import warnings
+    after = case.get('after', 'none')
+    if REFUSED[after] is not None:
+        # a call the library refuses (or not) comes first: what follows must not depend on it
+        err0 = np.geterr()
+        try:
+            REFUSED[after](lentil)
+            acc.cls('prior-call-accepted')
+        except Exception:
+            acc.cls('prior-call-refused')
+    err_before = np.geterr()
+    try:
+        _reject_body(case, acc, seed, lentil)
+    finally:
+        np.seterr(**err_before if REFUSED[after] is None else err0)      # whatever the prior call left behind ends with this case
+
+
+def _reject_body(case, acc, seed, lentil):
     for method in ('poisson', 'gaussian'):
         for bad, why in ((np.array([[1.0, -2.0]]), 'negative'), (np.array([[1e19, 5.0]]), 'too-large')):
             if method == 'gaussian' and why == 'too-large':
@@ -156,14 +189,31 @@ def chk_reject(case, acc, seed):
             except Exception as e:
                 acc.violation(f'shot-{method}:{why}-wrong-exception', dict(case, method=method, why=why), repr(e))
     # dark frame without pattern noise equals floor(rate)
-    for rate in (0, 0.4, 1, 2.5, 17.999, 1e4 + 0.5):
+    for rate in (0, 0.4, 1, 2.5, 17.999, 1e4 + 0.5, 99.999999, 4095.9999, 123456789.0, 4e9 + 1, 2.0 ** 40 + 1.5, 7, np.float32(2.5), np.int64(2 ** 31 + 1)):
         for shape in ((4, 4), (3, 5), 1):
             d = np.asarray(lentil.detector.dark_current(rate, shape=shape))
-            if not np.all(d == math.floor(rate)) or (shape != 1 and d.shape != shape):
+            if not np.all(np.asarray(d, dtype=np.float64) == float(math.floor(rate))) or (shape != 1 and d.shape != shape):
                 acc.violation('dark:no-fpn', dict(case, rate=rate, shape=shape), f'dark frame {d.ravel()[:3]} != floor({rate})')
             d2 = np.asarray(lentil.detector.dark_current(rate, shape=shape, fpn_factor=0, seed=5))
             if not np.array_equal(d, d2):
                 acc.violation('dark:no-fpn-seed', dict(case, rate=rate, shape=shape), 'seed changes a frame without pattern noise')
+    # requested RMS at the ends of the representable range: zero gives a zero map, tiny values are delivered exactly
+    for rms in (0.0, 1e-200, 1e-160, 1e-30, 1.0, 1e150):
+        for shape in ((6, 6), (5, 9)):
+            m = psd_mask(shape)
+            sub = dict(case, rms=rms, shape=shape)
+            try:
+                o = np.asarray(lentil.power_spectrum(m, pixelscale=1e-3, rms=rms, half_power_freq=5, exp=3, seed=4))
+            except Exception as e:
+                acc.violation(f'psd:rms-extreme:raises:{type(e).__name__}', sub, repr(e))
+                continue
+            if not np.all(np.isfinite(o)) or np.any(o[m == 0] != 0):
+                acc.violation('psd:rms-extreme:support', sub, f'requested rms {rms}: non-finite map or non-zero outside the mask')
+                continue
+            got = math.sqrt(float(np.sum((o[m != 0] / (rms or 1.0)) ** 2)) / np.count_nonzero(m)) * (rms or 1.0)
+            if (rms == 0 and np.any(o != 0)) or (rms > 0 and abs(got / rms - 1) > 1e-9):
+                acc.violation('psd:rms-extreme:value', sub, f'requested rms {rms}, delivered {got}')
+            acc.cls('psd-rms-extreme')
     acc.cls('rejections')
     acc.case(case, outcome='reject')
 
@@ -253,7 +303,8 @@ def run(tier, seed, acc, procs=None):
     for lo in range(0, n, 16):
         tasks.append(('t_cosmic', {'tier': tier, 'seed': seed, 'lo': lo}))
     acc.states += 1
-    chk_reject({'kind': 'reject'}, acc, seed)
+    for after in REFUSED:
+        chk_reject({'kind': 'reject', 'after': after}, acc, seed)
     for fname in FRAMES:
         for sd in (0, 1, 5):
             chk_history({'kind': 'history', 'frame': fname, 'seed': sd}, acc, seed)
@@ -269,7 +320,7 @@ def run(tier, seed, acc, procs=None):
                         'moment claims are sample statistics with 6-sigma bounds (deterministic for the enumerated seeds), not distributional proofs',
                         'Gaussian shot noise only in its documented large-count regime (>= 1000 counts)'],
         'require': {'psd:non-square': 50, 'psd:square': 50, 'shot-poisson:square': 100, 'read:non-square': 50, 'seed-pairs': 1000,
-                    'cosmic-hit': 20, 'rejections': 1, 'history': 9},
+                    'cosmic-hit': 20, 'rejections': 10, 'history': 9, 'psd-rms-extreme': 100, 'prior-call-refused': 8},
     }
 
 
